@@ -615,6 +615,26 @@ func (c *Ctx) oblige(o *Obligation) {
 	c.obls = append(c.obls, o)
 }
 
+// scriptSliced is the query with every quantified assumption dropped. Dropping assumptions is sound
+// (a proof from fewer hypotheses is still a proof); most safety and frame obligations discharge this way
+// in milliseconds, independent of how many quantified facts the function carries.
+func (c *Ctx) scriptSliced(o *Obligation) string {
+	var sb strings.Builder
+	sb.WriteString("; obligation " + o.Name + " (quantifier-free slice of the assumptions)\n")
+	sb.WriteString("(declare-sort Str 0)\n")
+	for _, d := range c.decls {
+		sb.WriteString(d + "\n")
+	}
+	for _, a := range c.asserts[:o.N] {
+		if strings.Contains(a.term, "(forall ") || strings.Contains(a.term, "(exists ") {
+			continue
+		}
+		sb.WriteString("(assert " + a.term + ")\n")
+	}
+	sb.WriteString("(assert (not " + o.Goal + "))\n(check-sat)\n")
+	return sb.String()
+}
+
 func (c *Ctx) script(o *Obligation, timeoutMs int, logic string) string {
 	var sb strings.Builder
 	sb.WriteString("; obligation " + o.Name + "\n")
